@@ -2,7 +2,7 @@
    and followed by Print Assumptions (audited by ./check on every run). *)
 From V.lib Require Import Base.
 From V.c05 Require Import C05Model C05FragModel C05OptProofs C05HistProofs C05LazyProofs
-  C05OffProofs C05GhostProofs C05ReadProofs C05RoundProofs C05CodecModel C05CodecProofs.
+  C05OffProofs C05GhostProofs C05ReadProofs C05RoundProofs C05CodecModel C05CodecProofs C05LazyRoundProofs.
 
 (* OptimizeTfhdTrun, then encode/decode of the trun (structure level: wire_trun), then
    AddSampleDefaultValues with ANY trex (or none) gives back exactly the samples of the trun, for all
@@ -129,6 +129,36 @@ Theorem C05_roundtrip : forall tracks pre mx post exs ops cs fr opt fe pos0 tx,
   get_full_samples (decoded_view fe pos0 []) (Some tx) = Ok (added_fulls tracks (tx_track tx) ops).
 Proof. exact roundtrip_multi_final. Qed.
 Print Assumptions C05_roundtrip.
+
+(* trex == nil: GetFullSamples reads the first traf *)
+Theorem C05_roundtrip_nil : forall T0 rest pre mx post exs ops cs fr opt fe pos0,
+  let tracks := T0 :: rest in
+  NoDup tracks -> N.of_nat (length ops) < 4294967296 -> forallb is_full_to ops = true ->
+  Forall (fun o => sized_f (op_full o)) ops ->
+  run_ops (with_extras (create_multi tracks) pre mx post exs) ops = (cs, Some fr) ->
+  encode_frag opt fr = Ok fe ->
+  moof_size fe + md_header_size (fr_mdat fe) + lenN (md_data (fr_mdat fr)) < 2147483648 ->
+  pos0 + fr_pre fe < 4611686018427387904 ->
+  consistent (added_fulls tracks T0 ops) ->
+  get_full_samples (decoded_view fe pos0 []) None = Ok (added_fulls tracks T0 ops).
+Proof. exact roundtrip_multi_nil_final. Qed.
+Print Assumptions C05_roundtrip_nil.
+
+(* metadata-only additions: the history uses AddSampleToTrack (to_lazy) and the caller writes the data of the
+   accepted operations, in op order, right after the encoded fragment: the decoded fragment reads back the same
+   full samples (Fragment.Encode depends on the mdat only through its header size: encode_frag_meta) *)
+Theorem C05_roundtrip_lazy : forall tracks pre mx post exs ops cs b' opt fb pos0 tx,
+  NoDup tracks -> N.of_nat (length ops) < 4294967296 -> forallb is_full_to ops = true ->
+  Forall (fun o => sized_f (op_full o)) ops ->
+  run_ops (with_extras (create_multi tracks) pre mx post exs) (map to_lazy ops) = (cs, Some b') ->
+  encode_frag opt b' = Ok fb ->
+  let data := flat_map op_data (accepted cs ops) in
+  moof_size fb + md_header_size (fr_mdat fb) + lenN data < 2147483648 ->
+  pos0 + fr_pre fb < 4611686018427387904 ->
+  consistent (added_fulls tracks (tx_track tx) ops) ->
+  get_full_samples (decoded_view fb pos0 data) (Some tx) = Ok (added_fulls tracks (tx_track tx) ops).
+Proof. exact roundtrip_lazy. Qed.
+Print Assumptions C05_roundtrip_lazy.
 
 (* the same for single-track fragments: CreateFragment(seq,T) + extra boxes, any history of AddFullSample /
    AddFullSampleToTrack (other ids are refused) that adds at least one sample; a trex of another track gets nil *)
